@@ -1652,7 +1652,7 @@ class CodeGenerator(NodeVisitor):
 
             seen_refs.add(nsref.name)
             ref = frame.symbols.ref(nsref.name)
-            self.writeline(f"if not isinstance({ref}, Namespace):")
+            self.writeline(f"if not isinstance({ref}, Namespace):", node)
             self.indent()
             self.writeline(
                 "raise TemplateRuntimeError"
@@ -1691,7 +1691,7 @@ class CodeGenerator(NodeVisitor):
         # Like in visit_Assign, ``a.b`` is only valid on a Namespace object.
         if isinstance(node.target, nodes.NSRef):
             ref = frame.symbols.ref(node.target.name)
-            self.writeline(f"if not isinstance({ref}, Namespace):")
+            self.writeline(f"if not isinstance({ref}, Namespace):", node)
             self.indent()
             self.writeline(
                 "raise TemplateRuntimeError"
